@@ -34,6 +34,15 @@ type Op struct {
 	Rekeys  [][2][]byte `json:"rekeys,omitempty"`
 	Entropy []byte      `json:"entropy,omitempty"`
 	Reads   []int       `json:"reads,omitempty"`
+	// operations on the ORIGIN transcript interleaved with the life of the RNG builder: after BuildRng and before
+	// the first rekey (Pre), between the last rekey and Finalize (Mid), and between Finalize and the reads (Post).
+	// A builder is a fork: nothing done to its origin afterwards may show in the RNG, and vice versa.
+	Pre  [][2][]byte `json:"pre,omitempty"`
+	Mid  [][2][]byte `json:"mid,omitempty"`
+	Post [][2][]byte `json:"post,omitempty"`
+	// how the entropy reader delivers its 32 bytes: 0 = one full read, k>0 = at most k bytes per Read,
+	// -1 = all bytes together with io.EOF
+	Chunk int `json:"chunk,omitempty"`
 }
 
 type Program struct {
@@ -53,6 +62,33 @@ func pickLen(rng *rand.Rand) int {
 type fixed struct{ b []byte }
 
 func (f *fixed) Read(p []byte) (int, error) { n := copy(p, f.b); return n, nil }
+
+// chunked delivers at most n bytes per Read; dataEOF delivers everything at once together with io.EOF. Both are
+// within the io.Reader contract, and io.ReadFull-style consumption must give the same 32 bytes for all of them.
+type chunked struct {
+	r io.Reader
+	n int
+}
+
+func (c *chunked) Read(p []byte) (int, error) {
+	if len(p) > c.n {
+		p = p[:c.n]
+	}
+	return c.r.Read(p)
+}
+
+type dataEOF struct {
+	b    []byte
+	done bool
+}
+
+func (d *dataEOF) Read(p []byte) (int, error) {
+	if d.done {
+		return 0, io.EOF
+	}
+	d.done = true
+	return copy(p, d.b), io.EOF
+}
 
 type failing struct{}
 
@@ -104,6 +140,24 @@ func genProgram(rng *rand.Rand, r *mon.Run) Program {
 			}
 			for k := 1 + rng.IntN(3); k > 0; k-- {
 				op.Reads = append(op.Reads, pickLen(rng))
+			}
+			il := func() [][2][]byte {
+				var o [][2][]byte
+				if rng.IntN(2) == 0 {
+					for k := 1 + rng.IntN(2); k > 0; k-- {
+						o = append(o, [2][]byte{mon.Bytes(rng, rng.IntN(12)), mon.Bytes(rng, pickLen(rng)%200)})
+					}
+				}
+				return o
+			}
+			op.Pre, op.Mid, op.Post = il(), il(), il()
+			op.Chunk = []int{0, 0, 1, 7, 16, 31, -1}[rng.IntN(7)]
+			r.Hist(fmt.Sprintf("rng/entropy-reader-chunk=%d", op.Chunk))
+			r.Hist(fmt.Sprintf("rng/origin-ops-interleaved=%v", len(op.Pre)+len(op.Mid)+len(op.Post) > 0))
+			for _, l := range [][][2][]byte{op.Pre, op.Mid, op.Post} {
+				for _, a := range l {
+					m.Append(a[0], a[1])
+				}
 			}
 		}
 		p.Ops = append(p.Ops, op)
@@ -161,6 +215,13 @@ func execute(r *mon.Run, c Case, p Program, compare bool) []byte {
 			live = append(live, pair{t.real.Clone(), t.mod.Clone()})
 		case "rng":
 			rb, mb := t.real.BuildRng(), t.mod.BuildRng()
+			origin := func(l [][2][]byte) {
+				for _, a := range l {
+					t.real.AppendMessage(string(a[0]), a[1])
+					t.mod.Append(a[0], a[1])
+				}
+			}
+			origin(op.Pre)
 			for _, rk := range op.Rekeys {
 				wit := append([]byte{}, rk[1]...)
 				rb.RekeyWithWitnessBytes(string(rk[0]), wit)
@@ -169,12 +230,21 @@ func execute(r *mon.Run, c Case, p Program, compare bool) []byte {
 				}
 				mb.Rekey(rk[0], rk[1])
 			}
-			rr, err := rb.Finalize(&fixed{op.Entropy})
+			origin(op.Mid)
+			var ent io.Reader = &fixed{op.Entropy}
+			switch {
+			case op.Chunk > 0:
+				ent = &chunked{bytes.NewReader(op.Entropy), op.Chunk}
+			case op.Chunk < 0:
+				ent = &dataEOF{b: op.Entropy}
+			}
+			rr, err := rb.Finalize(ent)
 			if err != nil {
-				mismatch(i, "Finalize/error", nil, nil)
+				mismatch(i, fmt.Sprintf("Finalize/error(chunk=%d)", op.Chunk), []byte(err.Error()), nil)
 				continue
 			}
 			mr := mb.Finalize(op.Entropy)
+			origin(op.Post)
 			for _, sz := range op.Reads {
 				got := make([]byte, sz)
 				n, err := rr.Read(got)
@@ -219,6 +289,12 @@ func finalOnly(p Program) []byte {
 			t.ExtractBytes(make([]byte, op.Size), string(op.Label))
 		case "clone":
 			live = append(live, t.Clone())
+		case "rng":
+			for _, l := range [][][2][]byte{op.Pre, op.Mid, op.Post} {
+				for _, a := range l {
+					t.AppendMessage(string(a[0]), a[1])
+				}
+			}
 		}
 	}
 	out := make([]byte, 32)
